@@ -259,7 +259,7 @@ func (qr *queryRequest) reply(payload []byte) {
 
 	qr.s.tracef("<=Q %s: %s", qr.rname, payload)
 	verifPoint("publish.before", qr.msg.Reply)
-	err := qr.s.nc.Publish(qr.msg.Reply, payload)
+	err := qr.s.publish(qr.msg.Reply, payload)
 	if err != nil {
 		qr.s.errorf("Error sending query reply %s: %s", qr.rname, err)
 	}
